@@ -45,13 +45,19 @@ def _ok_upnum(tok):
 
 
 def planted_token(rng, shape=None):
-    """Returns (shape, token). Shapes: sk- + 48 alnum, ghp_ + 36 alnum, AKIA + 16 upper/digit, 40 hex, 44-64 base64-ish."""
-    shape = shape or rng.choice(["sk", "ghp", "akia", "hex40", "b64"])
+    """Returns (shape, token). Shapes: sk- + 48 alnum, ghp_ + 36 alnum, AKIA + 16 upper/digit, 40 hex, 44-64 base64-ish, github_pat_ (93 characters),
+    96-172 base64-ish (longer than the 90 characters the detector's tables are sized for)."""
+    shape = shape or rng.choice(["sk", "ghp", "akia", "hex40", "b64", "github_pat", "b64long"])
     for _ in range(100000):
         if shape == "sk":
             tok = "sk-" + "".join(rng.choice(ALNUM) for _ in range(48)); ok = _ok_base64ish(tok)
         elif shape == "ghp":
             tok = "ghp_" + "".join(rng.choice(ALNUM) for _ in range(36)); ok = _ok_base64ish(tok)
+        elif shape == "github_pat":
+            # GitHub's fine-grained personal access tokens: 93 characters
+            tok = "github_pat_" + "".join(rng.choice(ALNUM) for _ in range(22)) + "_" + "".join(rng.choice(ALNUM) for _ in range(59)); ok = _ok_base64ish(tok)
+        elif shape == "b64long":
+            tok = "".join(rng.choice(ALNUM + "+/") for _ in range(rng.choice([96, 128, 172]))); ok = _ok_base64ish(tok)
         elif shape == "akia":
             tok = "AKIA" + "".join(rng.choice(UPNUM) for _ in range(16)); ok = _ok_upnum(tok)
         elif shape == "hex40":
